@@ -6,6 +6,9 @@ import ast
 from .. import kernelspec
 from ..model import AnalysisError, Program, body_walk, calls_in_body, dotted, norm
 from ..report import Result
+from ..dataflow import flow_of
+from ..normalform import canon, normal_form
+from ..poly import Poly, PolyEnv
 from .c12 import check_irfft
 
 TITLE = "Matched-filter S/N is the normalised template correlation and its argmax"
@@ -38,31 +41,46 @@ def run(prog: Program, res: Result, tier: str) -> None:
         (res.ok if verdict == "same" else res.bad)("R1", fn, fn.node, ("; ".join(why))[:500], construct=name, key=name)
     # ---- R2 index agreement -------------------------------------------------------------------
     cp = prog.func(F, "MatchedFilter._compute")
-    src = norm(cp.node)
+    nfc = normal_form(cp)
+
+    def obj(text: str) -> str | None:
+        want = canon(text)
+        hits = [e.target for e in nfc.effects if e.kind == "set" and e.target.startswith("$") and e.text() == want]
+        return hits[0] if len(hits) == 1 else None
+
+    def value_of(attr: str) -> str | None:
+        hits = nfc.sets(attr)
+        return hits[0].text() if len(hits) == 1 else None
+
+    o_data = obj("typed.List([temp.data for temp in self.temp_bank])")
+    o_ref = obj("typed.List([temp.ref_bin for temp in self.temp_bank])")
+    conv = f"kernels.convolve_templates(self.zscores.data, {o_data}, {o_ref})"
+    peak = f"np.unravel_index({conv}.argmax(), {conv}.shape)"
     checks = [
-        ("kernels and reference bins are listed from the same bank in the same order",
-         "temp_kernels = typed.List([temp.data for temp in self.temp_bank])" in src and "ref_bins = typed.List([temp.ref_bin for temp in self.temp_bank])" in src),
-        ("the standardised data (z-scores) are convolved with (kernels, ref_bins)",
-         "self._convs = kernels.convolve_templates(self.zscores.data, temp_kernels, ref_bins)" in src),
+        ("kernels and reference bins are listed from the same bank in the same order", o_data is not None and o_ref is not None),
+        ("the standardised data (z-scores) are convolved with (kernels, ref_bins)", value_of("self._convs") == conv),
         ("(template, bin) = unravel_index(argmax of the response matrix)",
-         "self._itemp, self._peak_bin = np.unravel_index(self._convs.argmax(), self._convs.shape)" in src),
-        ("best template = bank[itemp]", "self._best_temp = self.temp_bank[self._itemp]" in src),
-        ("S/N = response[itemp, peak_bin]", "self._best_snr = self._convs[self._itemp, self._peak_bin]" in src),
+         value_of("self._itemp") == f"{peak}[0]" and value_of("self._peak_bin") == f"{peak}[1]"),
+        ("best template = bank[itemp]", value_of("self._best_temp") in (f"self.temp_bank[{peak}[0]]", "self.temp_bank[self._itemp]")),
+        ("S/N = response[itemp, peak_bin]", value_of("self._best_snr") in (f"{conv}[{peak}[0], {peak}[1]]", "self._convs[self._itemp, self._peak_bin]")),
     ]
     for what, ok in checks:
         (res.ok if ok else res.bad)("R2", cp, cp.node, what if ok else f"MatchedFilter._compute no longer satisfies: {what}", construct=what, key=what[:50])
     init = prog.func(F, "MatchedFilter.__init__")
-    src = norm(init.node)
-    ok = "self._zscores = estimate_zscore(self.data, loc_method=loc_method, scale_method=scale_method)" in src and \
-        src.find("self._setup_templates(nbins_max, spacing_factor)") < src.find("self._compute()") and "self._compute()" in src
+    nfi = normal_form(init)
+    zs = [e for e in nfi.sets("self._zscores") if e.text() in (canon("estimate_zscore(self.data, loc_method, scale_method)"),
+                                                              canon("estimate_zscore(np.asarray(data, dtype=np.float32), loc_method, scale_method)"))]
+    setup = nfi.exprs("self._setup_templates(nbins_max, spacing_factor)")
+    comp = nfi.exprs("self._compute()")
+    ok = len(zs) == 1 and len(setup) == 1 and len(comp) == 1 and nfi.before(zs[0], comp[0]) and nfi.before(setup[0], comp[0])
     (res.ok if ok else res.bad)("R2", init, init.node, "data are standardised, the bank is built, then responses are computed" if ok else
                                 "MatchedFilter.__init__ no longer standardises the data before computing responses", construct="__init__", key="init")
     props = {"peak_bin": "int(self._peak_bin)", "best_temp": "self._best_temp", "snr": "self._best_snr", "convs": "self._convs"}
     mf = prog.cls(F, "MatchedFilter")
     for p, w in props.items():
         m = mf.methods.get(p)
-        rets = [s for s in body_walk(m.node) if isinstance(s, ast.Return)] if m else []
-        ok = len(rets) == 1 and norm(rets[0].value) == w
+        rets = [e.text() for e in normal_form(m).returns()] if m else []
+        ok = rets == [canon(w)]
         (res.ok if ok else res.bad)("R2", m, m.node if m else mf.node, f"{p} reports {w}" if ok else f"property {p} no longer reports {w}", construct=p, key=f"prop:{p}")
     # ---- R3 exhaustiveness ---------------------------------------------------------------------------
     kinds_node = prog.const("sigpyproc.core.custom_types", "MatchFilterMethods")
@@ -79,12 +97,43 @@ def run(prog: Program, res: Result, tier: str) -> None:
     else:
         res.bad("R3", st, st.node, f"template dispatch cannot resolve kinds {missing or kinds}", construct="dispatch", key="dispatch")
     pi = tmpl.methods.get("__attrs_post_init__")
-    ok = pi is not None and "if self.ref_bin >= self.data.size:" in norm(pi.node) and "raise ValueError(msg)" in norm(pi.node)
+    ok = pi is not None and any(e.under("self.ref_bin >= self.data.size") for e in normal_form(pi).raises())
     (res.ok if ok else res.bad)("R3", pi, pi.node if pi else tmpl.node, "a reference bin outside the template raises ValueError" if ok else
                                 "Template no longer validates ref_bin < size", construct="ref_bin", key="ref_bin")
-    for k, ref in (("boxcar", "ref_bin=0"), ("gaussian", "ref_bin = len(x) // 2"), ("lorentzian", "ref_bin = len(x) // 2")):
+    tparams = [n for n in tmpl.attrs_fields]
+    for k in ("boxcar", "gaussian", "lorentzian"):
         g = tmpl.methods.get(f"gen_{k}")
-        ok = g is not None and ref in norm(g.node)
+        ok = False
+        if g is not None:
+            fl = flow_of(g)
+            rets = [s_ for s_ in body_walk(g.node) if isinstance(s_, ast.Return) and isinstance(s_.value, ast.Call) and dotted(s_.value.func) in ("cls", "Template")]
+            ok = bool(rets)
+            for r in rets:
+                call = r.value
+                bound = {n: a_ for n, a_ in zip(tparams, call.args)}
+                bound.update({kw.arg: kw.value for kw in call.keywords})
+                if "ref_bin" not in bound or "data" not in bound:
+                    ok = False
+                    continue
+                at = fl.cfg.node_for(r)
+                rb = fl.expand(bound["ref_bin"], at)
+                data = fl.expand(bound["data"], at)
+                if k == "boxcar":
+                    ok = ok and PolyEnv().poly(rb) == Poly.const(0)
+                    continue
+                # symmetric support np.arange(-S, S + 1): the peak (x = 0) is element S = len(x) // 2
+                supports = {norm(c) for c in ast.walk(data) if isinstance(c, ast.Call) and dotted(c.func) == "np.arange" and len(c.args) == 2
+                            and PolyEnv().poly(c.args[1]) == Poly.const(1) - PolyEnv().poly(c.args[0])}
+                centre = False
+                if isinstance(rb, ast.BinOp) and isinstance(rb.op, ast.FloorDiv) and norm(rb.right) == "2" and isinstance(rb.left, ast.Call) and \
+                        dotted(rb.left.func) == "len" and len(rb.left.args) == 1 and norm(rb.left.args[0]) in supports:
+                    centre = True
+                else:
+                    for c in ast.walk(data):
+                        if isinstance(c, ast.Call) and dotted(c.func) == "np.arange" and norm(c) in supports and \
+                                PolyEnv().poly(rb) == -PolyEnv().poly(c.args[0]):
+                            centre = True
+                ok = ok and len(supports) == 1 and centre
         (res.ok if ok else res.bad)("R3", g, g.node if g else tmpl.node, f"gen_{k}: reference bin {'at the start' if k == 'boxcar' else 'at the peak (centre of a symmetric support)'}"
                                     if ok else f"gen_{k}: reference bin definition changed", construct=f"gen_{k}", key=f"gen:{k}")
     res.floor("R1", 4)
